@@ -20,7 +20,7 @@ class T:
         return self.inner if self.kind in ('ref', 'rref') else self
     def is_ref(self): return self.kind in ('ref', 'rref')
 
-_TOK = re.compile(r'\s*(\(lambda at [^)]*\)|\(anonymous namespace\)|\(anonymous\)|::|<|>|,|\*|&&|&|\(|\)|\[|\]|[A-Za-z_~][A-Za-z_0-9]*|-?\d+[uUlL]*|\.\.\.)')
+_TOK = re.compile(r'\s*(\'(?:\\x[0-9a-fA-F]+|\\.|[^\'])\'|\(lambda at [^)]*\)|\(anonymous namespace\)|\(anonymous\)|::|<|>|,|\*|&&|&|\(|\)|\[|\]|[A-Za-z_~][A-Za-z_0-9]*|-?\d+[uUlL]*|\.\.\.)')
 
 PRIM_WORDS = {'unsigned', 'signed', 'int', 'long', 'short', 'char', 'bool', 'float', 'double', 'void', 'wchar_t', 'char16_t', 'char32_t', '__int128'}
 
@@ -104,8 +104,11 @@ class TypeParser:
                 self.next()
                 while self.peek() != '>':
                     if self.peek() is None: raise Cxx2cError('type parser: unbalanced <> in %r' % self.src)
-                    if re.match(r'-?\d', self.peek()) or self.peek() in ('true', 'false'):
+                    if re.match(r"-?\d|'", self.peek()) or self.peek() in ('true', 'false'):
                         v = self.next()
+                        if v.startswith("'"):
+                            body = v[1:-1]
+                            v = str(int(body[2:], 16)) if body.startswith('\\x') else (str(ord(body[-1])) if not body.startswith('\\') else str({'n': 10, 't': 9, '0': 0}.get(body[1], ord(body[1]))))
                         a.append(v)
                     else:
                         a.append(self.parse_type())
